@@ -380,6 +380,17 @@ func (ctx *Context) evaluate() {
 		return false
 	}
 
+	// 剩余可用算力，0为不限；用于限制加骰类骰子的总骰数
+	remainOpCount := func() IntType {
+		if ctx.Config.OpCountLimit <= 0 {
+			return 0
+		}
+		if remain := ctx.Config.OpCountLimit - e.NumOpCount; remain > 0 {
+			return remain
+		}
+		return 1
+	}
+
 	diceStateIndex := -1
 	var diceStates []struct {
 		times    IntType // 次数，如 2d10，times为2
@@ -1061,7 +1072,13 @@ func (ctx *Context) evaluate() {
 				return
 			}
 
-			num, _, _, detailText := RollWoD(ctx.RandSrc, addLine, wodState.pool, wodState.points, wodState.threshold, wodState.isGE, getRollMode())
+			num, rollCount, _, detailText, exceeded := rollWoDLimited(ctx.RandSrc, addLine, wodState.pool, wodState.points, wodState.threshold, wodState.isGE, getRollMode(), remainOpCount())
+			if numOpCountAdd(rollCount) || exceeded {
+				if ctx.Error == nil {
+					ctx.Error = errors.New("允许算力上限")
+				}
+				return
+			}
 			ret := NewIntVal(num)
 			details[len(details)-1].Ret = ret
 			details[len(details)-1].Text = detailText
@@ -1094,7 +1111,13 @@ func (ctx *Context) evaluate() {
 			if !doubleCrossCheck(ctx, addLine, dcState.pool, dcState.points) {
 				return
 			}
-			success, _, _, detailText := RollDoubleCross(ctx.RandSrc, addLine, dcState.pool, dcState.points, getRollMode())
+			success, rollCount, _, detailText, exceeded := rollDoubleCrossLimited(ctx.RandSrc, addLine, dcState.pool, dcState.points, getRollMode(), remainOpCount())
+			if numOpCountAdd(rollCount) || exceeded {
+				if ctx.Error == nil {
+					ctx.Error = errors.New("允许算力上限")
+				}
+				return
+			}
 			ret := NewIntVal(success)
 			details[len(details)-1].Ret = ret
 			details[len(details)-1].Text = detailText
